@@ -410,6 +410,7 @@ func (e *Engine) globalInitVal(g *ssa.Global) (Val, bool) {
 				return fn.Name() == "init" || strings.HasPrefix(fn.Name(), "init#")
 			}
 			sub.FailReads = false
+			sub.inInit = true
 			savedSteps := e.steps
 			outs := sub.call(newState(), initFn, nil, nil, 0)
 			e.steps = savedSteps
